@@ -1,8 +1,8 @@
 """C17 / C12(composite): render Shapes.tla cases to a Rust program and compute the expected renderings."""
 import json
 
-LEAF_TY = {"O": "Val", "T": "Tok", "B": "&Val", "Bs": "&str", "S": "&'static str"}
-LEAF_SUP = {"O": "Val", "T": "Tok", "B": "Val", "Bs": "String", "S": "&'static str"}
+LEAF_TY = {"O": "Val", "T": "Tok", "B": "&Val", "Bs": "&str", "Bl": "&[Val]", "S": "&'static str"}
+LEAF_SUP = {"O": "Val", "T": "Tok", "B": "Val", "Bs": "String", "Bl": "Vec<Val>", "S": "&'static str"}
 
 
 def ty_rust(ty, table):
@@ -47,6 +47,9 @@ def lit(ty, v, ids):
             return 'String::from("s%d")' % i, "&s%d" % i
         if l == "S":
             return '"s%d"' % i, "&s%d" % i
+        if l == "Bl":
+            j = ids.next()
+            return "vec![Val::new(%d), Val::new(%d)]" % (i, j), "&[O%dg0,O%dg0]" % (i, j)
     if c == "none":
         return "None", "None"
     if c == "some":
